@@ -209,7 +209,9 @@ impl<R: Round, const B: Word> FBig<R, B> {
         let new_context = Context::new(precision);
 
         // shrink if necessary (an unlimited precision is represented by 0)
+        // (infinities carry no digits and are left untouched)
         let shrink = precision > 0
+            && self.repr.is_finite()
             && (self.context.precision == 0 || self.context.precision > precision);
         let repr = if shrink {
             new_context.repr_round(self.repr)
